@@ -155,6 +155,17 @@ def stepOp (st : St) (op : String) : St × String :=
       let (st', s) := wr st "cw" ((List.range nt).map fun i => (g + 4096 * (i % 8) + i, 1))
       (st', s.replace "cw:" "cw:ok")
     | _, _ => (st, "bad-op")
+  | ["cwl", nt, _, g, sz, off] =>
+    -- concurrent writers while SET_LOG_BASE (same window) is re-sent: the log is replaced by an equal one, then as `cw`
+    match hex? nt, hex? g, hex? sz, hex? off with
+    | some nt, some g, some sz, some off =>
+      match setLogBase st.hs sz with
+      | none => (st, "cwl:lbfail")
+      | some hs' =>
+        let st1 := { st with hs := hs', wins := (st.hs.nextLog, off, sz) :: st.wins }
+        let (st', s) := wr st1 "cwl" ((List.range (min nt 8)).map fun i => (g + 4096 * i + i, 1))
+        (st', s.replace "cwl:" "cwl:ok")
+    | _, _, _, _ => (st, "bad-op")
   | _ => (st, "bad-op")
 
 def run (toks : List String) : String :=
